@@ -22,7 +22,7 @@ var R = hx.NewRecorder("C15", "cases = (endpoint kind: GMSSL client | GMSSL-only
 	"oracle = Handshake() returns (quiescence of the in-memory transport turns waiting into EOF; a read-after-EOF counter catches spinning), returns an error for every true deviation, HandshakeComplete stays false, no panic; legal variations (fragmented or coalesced messages, unknown ticket) must still succeed; non-trivial = deviation applied after at least one valid message or in the first message; distinct by hash of the plan")
 
 func TestMain(m *testing.M) {
-	R.Require("dev:cke_ciphertext_byte", "dev:cert_list", "peer_pressed_on_after_alert", "endpoint:gmclient", "endpoint:gmserver", "endpoint:autoserver", "endpoint:tlsserver", "endpoint:tlsclient", "vers_sweep_done", "dev:omit", "dev:repeat", "dev:retype", "dev:reorder", "dev:truncate", "dev:len_field", "dev:split", "dev:coalesce",
+	R.Require("hello_vector_lengths", "dev:cke_ciphertext_byte", "dev:cert_list", "peer_pressed_on_after_alert", "endpoint:gmclient", "endpoint:gmserver", "endpoint:autoserver", "endpoint:tlsserver", "endpoint:tlsclient", "vers_sweep_done", "dev:omit", "dev:repeat", "dev:retype", "dev:reorder", "dev:truncate", "dev:len_field", "dev:split", "dev:coalesce",
 		"dev:oversize", "dev:ccs_early", "dev:appdata_early", "dev:alert_fatal", "dev:unknown_record", "dev:close", "dev:record_overflow", "replay_perturbed", "legal_must_succeed", "cke_1byte", "hostile_suites")
 	for d := 0; d <= 5; d++ {
 		R.Require(fmt.Sprintf("depth:%d", d))
@@ -550,6 +550,7 @@ func record(kind string) *recorded {
 		sc.ClientAuth, sc.ClientCAs = gmtls.RequestClientCert, p.RootsSM2
 	} else {
 		cc, sc = tlsx.TLSClient(p, "recc"), tlsx.TLSServer(p, p.RSASrv, "recs")
+		cc.NextProtos, sc.NextProtos = []string{"h2", "http/1.1", "x"}, []string{"http/1.1", "h2"}
 	}
 	r := tlsx.Run(cc, sc, tlsx.Script{ClientSend: []byte("ping"), ServerSend: []byte("pong")})
 	if r.Client.HSErr != nil || r.Server.HSErr != nil {
@@ -645,6 +646,58 @@ func TestC15_ReplayPerturbed(t *testing.T) {
 		}
 		R.Case(true, hx.HashKey("rp", ep, mutated), "endpoint:"+map[string]string{"autoserver_tls": "autoserver"}[ep]+map[bool]string{true: "", false: ep}[ep == "autoserver_tls"], "replay_perturbed", "replay:"+what)
 	})
+}
+
+// every length-like field of a ClientHello (with ALPN, SNI, tickets, signature algorithms ...) set to values just above,
+// just below and far from what follows it, fed to every server kind: the server must answer with an error
+func TestC15_HelloVectorLengths(t *testing.T) {
+	var n int64
+	for _, kind := range []string{"tls", "gm"} {
+		stream := record(kind).c2s
+		recs := wire.SplitRecords(stream)
+		hello := recs[0]
+		eps := []string{"tlsserver", "autoserver_tls"}
+		if kind == "gm" {
+			eps = []string{"gmserver", "autoserver"}
+		}
+		for w := 1; w <= 2; w++ {
+			for pos := 9; pos+w <= len(hello); pos++ { // 5 record header + 4 handshake header stay intact
+				rem := len(hello) - pos - w
+				cur := 0
+				for j := 0; j < w; j++ {
+					cur = cur<<8 | int(hello[pos+j])
+				}
+				vals := []int{rem + 1, cur + 1, cur - 1, 2 * cur, 0, 1<<(8*uint(w)) - 1}
+				if hx.Thorough() {
+					vals = append(vals, rem+2, rem-1, 2*rem, cur+2, cur-2, rem/2)
+				}
+				for vi, v := range vals {
+					if v < 0 || v == cur || v >= 1<<(8*uint(w)) {
+						continue
+					}
+					if !hx.Thorough() && (pos+vi)%2 == 1 {
+						continue // quick: half of the (position, value) grid
+					}
+					m := append([]byte(nil), hello...)
+					for j, x := w-1, v; j >= 0; j-- {
+						m[pos+j] = byte(x)
+						x >>= 8
+					}
+					ep := eps[(pos+vi)%len(eps)]
+					hsErr, pn, complete := replayAgainst(ep, m, "hvl")
+					if pn != nil {
+						t.Fatalf("%s PANICKED on a ClientHello whose %d-byte field at offset %d was set to %d (was %d): %s\n hello: %x", ep, w, pos, v, cur, pn, m)
+					}
+					if hsErr == nil || complete {
+						t.Fatalf("%s completed a handshake from a lone, altered ClientHello", ep)
+					}
+					n++
+				}
+			}
+		}
+		R.Case(true, hx.HashKey("hvl", kind), "hello_vector_lengths")
+	}
+	R.Subspace("ClientHello (TLS with ALPN/SNI/tickets, and GMSSL): every offset x width 1..2 x length-like values, against every server kind (quick: half of the grid)", n, hx.Thorough())
 }
 
 // replayAgainst feeds one byte stream, then end of input, to a fresh endpoint of the given kind.
